@@ -60,7 +60,7 @@ pub fn run_tier(paths: &Paths, seed: u64, rounds: u64, schedules: u64, known: &K
     }
     out.wall_s = t0.elapsed().as_secs_f64();
     out.stats = json!({
-        "rounds": v["rounds"], "executions_one_cold_process_each": v["executions"], "scenarios": v["scenarios"], "schedules_per_round": schedules, "wall_s": out.wall_s,
+        "rounds": v["rounds"], "executions_one_cold_process_each": v["executions"], "scenarios": v["scenarios"], "schedules_per_round": schedules, "executions_stopped_by_the_real_time_guard_inconclusive": v["guarded_out"], "wall_s": out.wall_s,
         "schedulers": "shuttle RandomScheduler (odd schedule seeds) and PctScheduler depth 3 (even)",
         "scheduling_points": "every std::sync / std::thread / thread_local! use of pdl-compiler and pdl-runtime (textually replaced by shuttle's in a scratch copy); none exists on the unchanged tree, where this tier degenerates to running the threads one after another",
     });
